@@ -7,6 +7,7 @@
    the implementation's float to these ingredients ((v*n)^2 = sum t_i etc., tolerance 2^-40).
 
    Vocabulary (Model/Indicators.v, Proofs/IndicatorsProofs.v):
+     eps_calculate true / gd_calculate true / igd_calculate true   calculate of the repaired classes from a given store
      eps_indicator / gd_indicator / igd_indicator   constructor + calculate of the three classes (literal model
                                                     with the store of normalized_objectives keyed by object identity)
      spacing_calculate                              Spacing.calculate (value under the sqrt)
@@ -29,10 +30,11 @@ Theorem c16_bounds_textbook : forall nobjs st ref c st', (1 <= nobjs)%nat ->
 Proof. exact ind_make_bounds_textbook. Qed.
 
 (* when calculate reads normalized_objectives of ANY feasible object of the reference set or
-   of the approximation set (also one that is listed in both), it finds (o - min)/(max - min) *)
-Theorem c16_normalized_objectives_textbook : forall nobjs ref set c st0 x,
+   of the approximation set (also one that is listed in both), it finds (o - min)/(max - min),
+   whatever the attributes held before the call (st arbitrary) *)
+Theorem c16_normalized_objectives_textbook : forall nobjs ref set c st0 st x,
   accepted nobjs ref set c st0 -> In x (feasible ref ++ feasible set) ->
-  store_get (writes (normed c) st0 (feasible set)) (s_sid x) = Ok (normed c x).
+  store_get (writes (normed c) (writes (normed c) st (feasible ref)) (feasible set)) (s_sid x) = Ok (normed c x).
 Proof. exact calc_store. Qed.
 
 Theorem c16_ranges_positive : forall nobjs ref set c st0, accepted nobjs ref set c st0 ->
@@ -210,13 +212,52 @@ Theorem c16_directions_matter :
   xval_is (eps_indicator 2 [false; false] [ISol 100 [0;1] 0; ISol 101 [1;0] 0] [ISol 0 [1#2;0] 0; ISol 1 [0;1#2] 0]) 0 = true.
 Proof. exact ex16_directions_matter. Qed.
 
-(* ---------- outside the statement: a history dependence the model predicts ----------
-   the reference set is normalised once, onto the objects; constructing a second indicator
-   whose reference set shares object 100 overwrites its normalized_objectives and changes
-   what GD / IGD of the first indicator return for the same arguments *)
-Theorem c16_shared_reference_objects_refuted :
+(* ---------- no dependence on earlier indicator calls (repaired code, fixes/acef3b8.diff) ----------
+   calculate of an indicator object (state c from its constructor) gives the textbook value from
+   EVERY prior content st of the objects' normalized_objectives attributes, i.e. whatever other
+   indicators did to the shared Solution objects between construction and this call *)
+Theorem c16_eps_any_prior_store : forall nobjs dirs ref set c st0 st,
+  accepted nobjs ref set c st0 -> length dirs = nobjs ->
+  exists st', eps_calculate true nobjs dirs c st set =
+  Ok (match feasible set with
+      | [] => XInf
+      | _ => XFin (eps_textbook dirs (map (normed c) (feasible ref)) (map (normed c) (feasible set)))
+      end, st').
+Proof. exact eps_calc_unfold. Qed.
+
+Theorem c16_gd_any_prior_store : forall nobjs ref set c st0 st, accepted nobjs ref set c st0 ->
+  exists st', gd_calculate true nobjs c st set =
+  Ok (match feasible set with
+      | [] => IInf
+      | _ => ITerms (gd_terms_textbook (map (normed c) (feasible ref)) (map (normed c) (feasible set)))
+                    (length (feasible set))
+      end, st').
+Proof. exact gd_calc_unfold. Qed.
+
+Theorem c16_igd_any_prior_store : forall nobjs ref set c st0 st, accepted nobjs ref set c st0 ->
+  exists st', igd_calculate true nobjs c st set =
+  Ok (match feasible set with
+      | [] => IInf
+      | _ => ITerms (gd_terms_textbook (map (normed c) (feasible set)) (map (normed c) (feasible ref)))
+                    (length (feasible ref))
+      end, st').
+Proof. exact igd_calc_unfold. Qed.
+
+Theorem c16_calculate_store_independent : forall nobjs dirs ref set c st0 st1 st2,
+  accepted nobjs ref set c st0 -> length dirs = nobjs ->
+  (exists v s1 s2, eps_calculate true nobjs dirs c st1 set = Ok (v, s1) /\ eps_calculate true nobjs dirs c st2 set = Ok (v, s2)) /\
+  (exists v s1 s2, gd_calculate true nobjs c st1 set = Ok (v, s1) /\ gd_calculate true nobjs c st2 set = Ok (v, s2)) /\
+  (exists v s1 s2, igd_calculate true nobjs c st1 set = Ok (v, s1) /\ igd_calculate true nobjs c st2 set = Ok (v, s2)).
+Proof. exact calculate_store_independent. Qed.
+
+(* the code before the repair (flag rn = false) read stale attributes: after the construction of
+   a second indicator sharing object 100, GD / IGD of the same arguments change; with rn = true
+   they do not *)
+Theorem c16_prerepair_shared_reference_objects_refuted :
   terms_are (gd_indicator 2 hd_ref hd_set) [1#8; 1#8] 2 = true /\
-  terms_are (after_second_constructor (fun c st => gd_calculate 2 c st hd_set)) [5#16; 1#8] 2 = true /\
+  terms_are (after_second_constructor (fun c st => gd_calculate false 2 c st hd_set)) [5#16; 1#8] 2 = true /\
+  terms_are (after_second_constructor (fun c st => gd_calculate true 2 c st hd_set)) [1#8; 1#8] 2 = true /\
   terms_are (igd_indicator 2 hd_ref hd_set) [1#8; 1#8; 5#16] 3 = true /\
-  terms_are (after_second_constructor (fun c st => igd_calculate 2 c st hd_set)) [5#16; 1#8; 5#16] 3 = true.
-Proof. exact shared_reference_objects_refuted. Qed.
+  terms_are (after_second_constructor (fun c st => igd_calculate false 2 c st hd_set)) [5#16; 1#8; 5#16] 3 = true /\
+  terms_are (after_second_constructor (fun c st => igd_calculate true 2 c st hd_set)) [1#8; 1#8; 5#16] 3 = true.
+Proof. exact prerepair_shared_reference_objects_refuted. Qed.
